@@ -42,7 +42,7 @@ def strategy(tier):
 
 def budget(tier):
     if tier == 'quick':
-        return {'max_examples': 400, 'shards': 8, 'time_budget': 110}
+        return {'max_examples': 800, 'shards': 16, 'time_budget': 110}
     return {'max_examples': 24000, 'shards': 16, 'time_budget': 1800}
 
 
